@@ -68,9 +68,11 @@ class AbstractContinuumSampler(metaclass=ABCMeta):
         if ground_truth_annotators is None:
             self._ground_truth_annotators = self._reference_continuum.annotators
         else:
+            # read once : the annotators may be given as any iterable, a generator included
+            ground_truth_annotators = SortedSet(ground_truth_annotators)
             assert self._reference_continuum.annotators.issuperset(ground_truth_annotators), \
                 "Can't sample from ground truth annotators not in the reference continuum."
-            self._ground_truth_annotators = SortedSet(ground_truth_annotators)
+            self._ground_truth_annotators = ground_truth_annotators
 
     def _has_been_init(self):
         assert self._reference_continuum is not None, \
